@@ -159,6 +159,21 @@ def run(tier, rep):
             rep.violation(v['key'], v['text'])
         if len(samples) < 3:
             samples.append({'name': x['name'], 'executions': x['executions'], 'distinct_event_shapes': x['distinct']})
+    # (2b) all names one after the other in one process, three orders
+    r = subprocess.run([exe, 'sequence'], stdout=subprocess.PIPE, stderr=subprocess.PIPE, text=True, timeout=1500)
+    if r.returncode != 0:
+        raise SystemExit('HARNESS-ERROR: c05 sequence exited %d' % r.returncode)
+    nseq = 0
+    for ln in r.stdout.splitlines():
+        x = json.loads(ln)
+        if 'crashed' in x:
+            rep.violation('sequence:%s:crash' % x['name'], "the in-process sequence of all names (%s) died: %s" % (x['name'], x['crashed']))
+            continue
+        execs += x['executions']; nseq += 1
+        for v in x['violations']:
+            rep.violation(v['key'], v['text'])
+    if nseq != 3:
+        rep.violation('sequence:incomplete', 'only %d of the 3 in-process sequences finished' % nseq)
     for n in ls_bkg:
         if n not in seen:
             rep.violation('bkg:%s:no-scheme-known' % n, "published background name '%s' has no entry in the check's scheme table (new nuclide?)" % n)
@@ -171,7 +186,7 @@ def run(tier, rep):
                 'README mode table, dbd_modes.lis and dbd_modes() must agree; for each of the 69 published background names the event obtained through '
                 'decay0_generator equals (bit for bit, same deviates consumed) the event obtained by calling the nuclide\'s own scheme function plus exactly '
                 'the documented daughter, for the default stream and every single forced deviate position (<=80) over a 15-value grid, every pair of the first five positions%s, %d streams; '
-                'distinct = distinct (species list, deviates consumed) shapes' % (' (thorough: every pair of the first eight and every triple of the first four positions)' if tier != 'quick' else '', nph),
+                'all names also generated one after the other in one process in three orders (13 executions each); distinct = distinct (species list, deviates consumed) shapes' % (' (thorough: every pair of the first eight and every triple of the first four positions)' if tier != 'quick' else '', nph),
     })
     rep.assumptions += ['name -> scheme-function table (checks/c05_schemes.inc) written from README appendix 1; daughters: Bi212+Po212 and Bi214+Po214 only after a beta branch, '
                         'Ca48+Sc48 and Zr96+Nb96 always, shifted by the daughter decay time', 'double-beta names: initialise and generate, catalogue equality (their schemes are bound by C02)']
